@@ -433,7 +433,8 @@ class World:
             elif ifs and rng.random() < 0.15:
                 classImplements(c, (x for x in ifs))
                 ctx.count('declarations_from_one_shot_iterables')
-            elif rng.random() < 0.12:
+            elif rng.random() < (0.5 if (ifs and any(type(ob).__bases__ == (c,) for ob in self.objs))
+                                 else 0.12):
                 # the declaration call fails half-way: something subscribed to the class's specification raises when it
                 # is told.  The declaration itself has been recorded by then; an empty re-declaration (nothing new,
                 # everything recomputed and everybody told again) must leave exactly what the history declared.
@@ -441,9 +442,9 @@ class World:
                 # ... sometimes it is subscribed to the specification of a subclass D(c) instead: the news has reached D
                 # itself when the dependent refuses it, so a super proxy of a D instance (rest of the MRO: c and above,
                 # all up to date) must show the new declaration even before anything is healed
-                below = [ob for ob in self.objs if type(ob).__bases__ == (c,) and not hasattr(ob, '__provides__')]
+                below = [ob for ob in self.objs if type(ob).__bases__ == (c,)]     # (a super proxy ignores what the object provides directly)
                 target, proxy_of = c, None
-                if below and ifs and rng.random() < 0.6:
+                if below and ifs and rng.random() < 0.8:
                     proxy_of = rng.choice(below)
                     target = type(proxy_of)
                     providedBy(super(target, proxy_of))          # the synthesized specification is cached now
